@@ -145,6 +145,20 @@ func MDEntries() []Entry {
 			}
 			f.TopLine("define void @%s(i32 %%a) !dbg !%d {\n  call void @llvm.dbg.value(metadata %s, metadata !%d, metadata %s), !dbg !%d\n  ret void, !dbg !%d\n}", f.Uniq("f"), sp, val, v, expr, loc, loc)
 		}},
+		di("DIFlags", func(f *Frag, file, cu, sp, bt int) string {
+			// flag SETS: members of the three packed groups (accessibility, inheritance, and the
+			// two-bit IndirectVirtualBase) next to each other and next to single-bit flags; the
+			// simplest form already holds two packed groups and a single-bit flag.
+			fl := []string{"DIFlagPublic", "DIFlagProtected", "DIFlagPrivate", "DIFlagIndirectVirtualBase", "DIFlagFwdDecl", "DIFlagVirtual", "DIFlagSingleInheritance", "DIFlagMultipleInheritance", "DIFlagVirtualInheritance", "DIFlagArtificial", "DIFlagBitField", "DIFlagStaticMember", "DIFlagIntroducedVirtual", "DIFlagNoReturn", "DIFlagTypePassByValue", "DIFlagTypePassByReference", "DIFlagEnumClass", "DIFlagThunk", "DIFlagNonTrivial", "DIFlagBigEndian", "DIFlagLittleEndian", "DIFlagAllCallsDescribed", "DIFlagExplicit", "DIFlagPrototyped", "DIFlagObjcClassComplete", "DIFlagObjectPointer", "DIFlagVector", "DIFlagLValueReference", "DIFlagRValueReference", "DIFlagAppleBlock", "DIFlagReservedBit4", "DIFlagExportSymbols"}
+			a := fl[f.N("flagA", len(fl))]
+			b := append([]string{"DIFlagIndirectVirtualBase"}, fl...)[f.N("flagB", len(fl)+1)]
+			c := append([]string{"DIFlagArtificial", ""}, fl...)[f.N("flagC", len(fl)+2)]
+			set := a + " | " + b
+			if c != "" {
+				set += " | " + c
+			}
+			return fmt.Sprintf("!DIDerivedType(tag: DW_TAG_inheritance, scope: !%d, baseType: !%d, flags: %s)", bt, bt, set)
+		}),
 		di("DIBasicType", func(f *Frag, file, cu, sp, bt int) string {
 			return "!DIBasicType(" + f.Alt("fields", `name: "char", size: 8, encoding: DW_ATE_signed_char`, `tag: DW_TAG_unspecified_type, name: "decltype(nullptr)"`, `name: "u", size: 64, align: 32, encoding: DW_ATE_unsigned, flags: DIFlagBigEndian`, `name: "f", size: 32, encoding: DW_ATE_float`, `name: "b", size: 8, encoding: DW_ATE_boolean`) + ")"
 		}),
